@@ -15,8 +15,13 @@ M = {}
 MODE = {}
 
 
-def mut(name, prop, path, old, new, desc, first=False, all=False):
+EXTRA = {}
+
+
+def mut(name, prop, path, old, new, desc, first=False, all=False, extra=None):
     M[name] = (prop, path, old, new, desc)
+    if extra:
+        EXTRA[name] = extra  # list of (path, old, new)
     MODE[name] = "first" if first else "all" if all else "one"
 
 
@@ -175,6 +180,28 @@ mut("c06_suspend_unlock_no_inc", "C06", "ythread.c",
     /* Increase the number of blocked threads */
     ABTI_pool_inc_num_blocked(p_prev->thread.p_pool);""",
     """    ABTD_spinlock *p_lock = p_arg->p_lock;""", "units blocking on a synchronisation object are not counted as blocked")
+mut("c12_yield_ignores_cancel", "C12", "ythread.c",
+    """    if (ABTI_thread_handle_request(&p_prev->thread, ABT_TRUE) &
+        ABTI_THREAD_HANDLE_REQUEST_CANCELLED) {
+        /* p_prev is terminated. */
+    } else {
+        /* Push p_prev back to the pool. */
+        ABTI_pool_add_thread(&p_prev->thread, context);
+    }
+}""",
+    """    if (ABTI_thread_handle_request(&p_prev->thread, ABT_FALSE) &
+        ABTI_THREAD_HANDLE_REQUEST_CANCELLED) {
+        /* p_prev is terminated. */
+    } else {
+        /* Push p_prev back to the pool. */
+        ABTI_pool_add_thread(&p_prev->thread, context);
+    }
+}""", "a started ULT is never cancelled: neither the yield callback nor the pop path honours the request once the ULT has run",
+    extra=[("include/abti_ythread.h", """    const int request_op = ABTI_thread_handle_request(p_thread, ABT_TRUE);""",
+            """    const int request_op = ABTI_thread_handle_request(p_thread, p_thread->p_last_xstream == NULL ? ABT_TRUE : ABT_FALSE);""")])
+mut("c12_revive_keeps_request", "C12", "thread.c",
+    """    ABTD_atomic_relaxed_store_uint32(&p_thread->request, 0);""",
+    """    (void)0; /* mutant: a stale cancel request survives the revive */""", "thread_revive does not clear pending requests", first=True)
 mut("c01_fifo_no_second_empty_check", "C01", "pool/thread_queue.h",
     None, None, "placeholder")
 mut("c03_join_no_final_wait", "C03", "thread.c",
@@ -206,6 +233,13 @@ def run(name, runs, budget):
         shutil.rmtree(scratch, ignore_errors=True)
         return {"mutant": name, "error": "pattern occurs %d times" % s.count(old)}
     open(p, "w").write(s.replace(old, new) if mode == "all" else s.replace(old, new, 1))
+    for (p2, o2, n2) in EXTRA.get(name, []):
+        pp = os.path.join(scratch, "src", p2)
+        s2 = open(pp).read()
+        if s2.count(o2) < 1:
+            shutil.rmtree(scratch, ignore_errors=True)
+            return {"mutant": name, "error": "extra pattern not found in " + p2}
+        open(pp, "w").write(s2.replace(o2, n2, 1))
     t0 = time.time()
     cmd = [os.path.join(VERIF, "bin", "check"), prop, "--repo", scratch, "--no-evidence"]
     if runs:
